@@ -357,6 +357,7 @@ func C04(r *vf.Run) {
 		r.Sample(map[string]interface{}{"mapper": m.name, "bus": "$808000", "pak": fmt.Sprintf("$%06x", first(m.b2p(0x808000)))})
 	}
 	interleavedWithLibrary(r, func(m *mapper, a uint32, cells map[string]int64) { c04Check(r, m, a, cells) })
+	usedAtInitTime(r)
 	otherOrders(r)
 	runChild(r, "library-first", "VERIF_LIB_FIRST=1", "VERIF_MAPPER_ORDER=0,1,2,3")
 	if r.OnlyPhase == "" {
@@ -586,6 +587,7 @@ func C05(r *vf.Run) {
 		r.CellN("cross:console-addresses", n)
 	}
 	interleavedWithLibrary(r, func(m *mapper, a uint32, cells map[string]int64) { c05Check(r, m, a) })
+	usedAtInitTime(r)
 	otherOrders(r)
 	runChild(r, "library-first", "VERIF_LIB_FIRST=1", "VERIF_MAPPER_ORDER=0,1,2,3")
 	coldStartChildren(r)
